@@ -81,8 +81,10 @@ func (bi *BodyInspector) Inspect(ctx context.Context, r *http.Request, profile *
 	}
 
 	// Restore the body for downstream handlers by creating a new reader that combines
-	// what we've already read with any remaining unread content
-	r.Body = io.NopCloser(io.MultiReader(bytes.NewReader(buffer.Bytes()), r.Body))
+	// what we've already read with any remaining unread content. The bytes are copied
+	// out of the pooled buffer: it is reset and handed to another request as soon as
+	// we return, so the restored body must not alias it.
+	r.Body = io.NopCloser(io.MultiReader(bytes.NewReader(bytes.Clone(buffer.Bytes())), r.Body))
 
 	modelName := bi.extractModelName(buffer.Bytes())
 	if modelName != "" {
